@@ -383,6 +383,44 @@ def compare_result(sc, res, exp):
     return probs
 
 
+def written_skr_problems(sc, res, exp) -> list[str]:
+    """C02 on the document: the response bundles the signer returned, put through the tool's own SKR writer and read with ElementTree,
+    must state per bundle exactly the expected keys and signers (the SKR is the file, not the object in memory)."""
+    import xml.etree.ElementTree as ET
+    from kskm.skr.data import Response
+    from kskm.skr.output import skr_to_xml
+    rq = sc["request"]
+    pol = skrgen.k_policy(rq["zsk"])
+    r = vlib.run_impl(lambda: skr_to_xml(Response(id=rq["id"], serial=rq["serial"], domain=rq["domain"], timestamp=None, zsk_policy=pol, ksk_policy=pol, bundles=list(res[1]))))
+    if r[0] != "ok":
+        return [f"the SKR writer failed on the signed bundles: {r[2]}"]
+    try:
+        root = ET.fromstring(r[1].encode())
+    except ET.ParseError as e:
+        return [f"the written SKR is not well-formed: {e}"]
+    resp = root.find("Response")
+    probs = []
+    if resp is None or (root.get("id"), root.get("serial"), root.get("domain")) != (rq["id"], str(rq["serial"]), rq["domain"]):
+        probs.append("written SKR: id/serial/domain not those of the request")
+        return probs
+    rbs = resp.findall("ResponseBundle")
+    if len(rbs) != len(exp[1]):
+        return [f"written SKR has {len(rbs)} bundles for {len(exp[1])} request bundles"]
+    for rb, e in zip(rbs, exp[1]):
+        if (rb.get("id"), rb.findtext("Inception"), rb.findtext("Expiration")) != (e["id"], ksrxml.fmt_dt(e["inc"]), ksrxml.fmt_dt(e["exp"])):
+            probs.append(f"written bundle {e['id']}: id/inception/expiration not copied")
+        got = sorted((k.get("keyIdentifier"), int(k.get("keyTag")), int(k.findtext("TTL")), int(k.findtext("Flags")), int(k.findtext("Protocol")), int(k.findtext("Algorithm")),
+                      base64.b64decode(k.findtext("PublicKey"))) for k in rb.findall("Key"))
+        want = sorted((k["id"], k["tag"], k["ttl"], k["flags"], k.get("proto", 3), k["alg"], k["pub"]) for k in e["keys"])
+        if got != want:
+            probs.append(f"written bundle {e['id']}: key set differs from what request and schema dictate: written {[(g[0], g[1], g[3]) for g in got]} want {[(w[0], w[1], w[3]) for w in want]}")
+        gs = sorted((s.get("keyIdentifier"), int(s.findtext("KeyTag"))) for s in rb.findall("Signature"))
+        ws = sorted((s["id"], s["tag"]) for s in e["sigs"])
+        if gs != ws:
+            probs.append(f"written bundle {e['id']}: signers differ: written {gs} want {ws}")
+    return probs
+
+
 def token_octets_problems(sc, run) -> list[str]:
     """C15/C01: octets and mechanism handed to the token, against an independent EMSA-PKCS1-v1_5 / digest reference."""
     probs = []
